@@ -18,6 +18,9 @@ CASES = [
     # the shortest history is nine calls long (it was found by the thorough depth of this slice)
     ("F14", "S", "s_cap1", "C03", {"depth": 9}),
     ("F15", "S", "s_cap2_ttl_w", "C03", {"depth": 7}),
+    # two threads write one key with different weights and queue their records in the opposite order:
+    # every interleaving of race program `grow`; the final counters must equal the weights of the values held
+    ("F16", "C", "grow", "C10", {}),
 ]
 
 
@@ -27,7 +30,7 @@ def main():
     out = []
     bad = 0
     for dev, kind, sl, prop, over in CASES:
-        c = dict(P.Q[sl])
+        c = dict(P.Q[sl]) if kind != "C" else {}
         if "depth" in over:
             c["depth"] = over["depth"]
         if kind == "U":
@@ -37,6 +40,9 @@ def main():
                 k["Period"] = over["Period"]
             r = V.model_check(wd, "self_%s_%s" % (dev, prop), c["module"], k, ["Ok", "NoPanic"], constraints=["Stop"],
                               workers=8, timeout=600)
+        elif kind == "C":
+            r = V.model_check(wd, "self_%s_%s" % (dev, prop), "MC_Conc.tla", P.conc_constants(sl, False, False, (dev,)),
+                              ["Ok", "NoCrash", "NoDeadlock"], workers=8, timeout=900)
         else:
             r = V.model_check(wd, "self_%s_%s" % (dev, prop), c["module"], P.constants_smc(c, [prop], dev=(dev,)),
                               ["Ok", "NoPanic"], constraints=["Stop", "Depth"], view="View", workers=8, timeout=900)
